@@ -256,14 +256,15 @@ class ReaderHarness:
             ops = [('read', 1), ('read', 2), ('read', 3), ('read', -1), ('peek', 1), ('peek', -1), ('exhaust',)]
             for d in self.delims:
                 ops += [('read_until', d, -1, False), ('read_until', d, 1, False), ('read_until', d, 2, False),
-                        ('read_until', d, 3, False), ('read_until', d, -1, True), ('pipe_until', d, False), ('delimit', d)]
+                        ('read_until', d, 3, False), ('read_until', d, -1, True), ('pipe_until', d, False), ('delimit', d),
+                        ('read_until', d, 0, True)]      # "the delimiter must follow right here": nothing read, delimiter consumed
             ops.append(('pop',))
             return ops
         ops = [('read', 1), ('read', 2), ('read', -1), ('read', 0), ('read', None),
                ('peek', 1), ('peek', 2), ('peek', -1), ('exhaust',), ('pipe',)]
         for d in self.delims:
             ops += [('read_until', d, -1, False), ('read_until', d, 1, False), ('read_until', d, 2, False),
-                    ('read_until', d, -1, True), ('read_until', d, 1, True),
+                    ('read_until', d, -1, True), ('read_until', d, 1, True), ('read_until', d, 0, True),
                     ('pipe_until', d, False), ('pipe_until', d, True), ('delimit', d)]
         if self.kind == 'sync':
             ops += [('readline', -1), ('readline', 2), ('readlines', -1), ('readlines', 2)]
